@@ -80,6 +80,11 @@ pub static VIOLATION_PRINTED: std::sync::atomic::AtomicBool = std::sync::atomic:
 /// Fallback for panics that happened on another (rayon worker) thread and were re-thrown.
 static LAST_PANIC_ANY_THREAD: std::sync::Mutex<Option<PanicInfo>> = std::sync::Mutex::new(None);
 
+/// The most recent panic on any thread (used by `main` when a panic escapes a check).
+pub fn last_panic_any_thread() -> Option<PanicInfo> {
+    LAST_PANIC_ANY_THREAD.lock().ok().and_then(|g| g.clone())
+}
+
 pub fn install_panic_hook() {
     let default = std::panic::take_hook();
     std::panic::set_hook(Box::new(move |info| {
